@@ -16,6 +16,7 @@ Clauses of the property:
 -/
 import OccaProofs.Lemmas.Tile
 import OccaProofs.Lemmas.ExprGroup
+import OccaProofs.Lemmas.ExprGrammar
 
 namespace Occa.Loop.C18
 open Occa Occa.Loop Occa.LoopExpr
@@ -74,12 +75,15 @@ theorem C18_tile_launch (h : Header) (T : Int) (check : Bool) (hv : h.Valid) (hs
 
 example : tiledLaunch ⟨0, 20, .lt, true, .addEq 3⟩ 4 true = [0, 3, 6, 9, 12, 15, 18] := by decide
 
-/-- (d) The in-block bound `(xT ± stride)` and the block update are grouped for tile sizes and steps of every
-    operator class, and denote the numeric `innerHeader` / `blockHeader`. -/
+/-- (d) The texts of the in-block bound `(xT ± stride)` and of the block stride are derived by the C expression
+    grammar as the trees that were built, for tile sizes and steps of every operator class; those trees denote
+    the numeric `innerHeader` / `blockHeader` (`C18_tile_spec_value`). -/
 theorem C18_inner_bound_faithful (l : LoopSpec) (t : TileSpec) (hT : Grouped t.T)
     (hst : ∀ s, l.step = some s → Grouped s) :
-    Grouped (innerSpec l t).bound ∧ (∀ s, (blockSpec l t).step = some s → Grouped (wrap s)) :=
-  tileSpec_grouped l t hT hst
+    (∃ ts, renderAll ts = print (innerSpec l t).bound ∧ Derives 16 ts (innerSpec l t).bound) ∧
+    (∀ s, (blockSpec l t).step = some s → ∃ ts, renderAll ts = print (wrap s) ∧ Derives 16 ts (wrap s)) := by
+  obtain ⟨h1, h2⟩ := tileSpec_grouped l t hT hst
+  exact ⟨grouped_reads _ h1, fun s hs => grouped_reads _ (h2 s hs)⟩
 
 theorem C18_tile_spec_value (l : LoopSpec) (t : TileSpec) (env : String → Int) (xT : Int)
     (hfresh : ∀ e : Expr, e = l.init ∨ e = l.bound ∨ l.step = some e ∨ e = t.T →
